@@ -318,6 +318,19 @@ def for_with_invariant(ex, s, p, it, spec, key):
 # ------------------------------------------------------------------------------ methods on heap containers
 def method(ex, p, base, name, args, kwargs, node):
     h = p.heap[base.ref]
+    from .absseq import HAbsSet, set_add
+    if isinstance(h, HAbsSet):
+        if name == 'add':
+            set_add(ex, p, base, args[0])
+            yield p, NONE
+            return
+        raise EngineError(f'abstract set method {name}')
+    if base.ref in p.ghost.get('shared_refs', ()) and name in ('append', 'extend', 'insert', 'pop', 'remove', 'reverse',
+                                                                'add', 'clear', 'sort', 'update'):
+        # a class-level (shared) container is being mutated through an instance: state leaks between instances
+        ex.oblige(p, 'frame', False, f'mutates-shared-class-attribute-via-{name}@L{getattr(node, "lineno", "?")}')
+        yield p, NONE
+        return
     if isinstance(h, HList):
         if name == 'append':
             h.items.append(args[0])
